@@ -90,6 +90,36 @@ theorem no_cmd_after_failure {g : Graph} {tr : List Ev} (h : TraceOk g tr) {t j 
   have := (cmd_prev i h hs j hji).2
   exact ret_unique h (by rw [hs]; exact List.mem_append_left _ this) hf
 
+/-- a task one of whose commands failed (returned an error / unknown name / unreadable text) does not close ok -/
+theorem no_done_true_after_failure {g : Graph} {tr : List Ev} (h : TraceOk g tr) {t j : Nat}
+    (hf : Ev.ret t j false ∈ tr) : Ev.done t true ∉ tr := by
+  intro hd
+  obtain ⟨pre, post, hs, hk⟩ := traceOk_mem h hd
+  have h3 := hk.2.2
+  simp only [if_true] at h3
+  -- the failing return and its command
+  obtain ⟨p2, q2, hs2, hk2⟩ := traceOk_mem h hf
+  have hcmd : Ev.cmd t j ∈ tr := by rw [hs2]; exact List.mem_append_left _ hk2.1
+  obtain ⟨p3, q3, hs3, hk3⟩ := traceOk_mem h hcmd
+  have hjl : j < (g.body t).length := hk3.1
+  have key : cmdDoneOk g pre t j → False := fun hdn =>
+    ret_unique h (by rw [hs]; exact List.mem_append_left _ hdn.1) hf
+  rcases h3.2 with h4 | h4
+  · exact key (h4 j (List.mem_range.mpr hjl))
+  · -- the command was entered before the close (no command event after the close)
+    have hin : Ev.cmd t j ∈ pre := by
+      rw [hs] at hcmd
+      rcases List.mem_append.mp hcmd with hm | hm
+      · exact hm
+      · exfalso
+        rcases List.mem_cons.mp hm with hm | hm
+        · cases hm
+        · obtain ⟨a, b, hab⟩ := List.append_of_mem hm
+          have hok : Ok g (pre ++ Ev.done t true :: a) (Ev.cmd t j) :=
+            h (pre ++ Ev.done t true :: a) (Ev.cmd t j) b (by rw [hs, hab]; simp)
+          exact hok.2.2.1 (Or.inl (by simp))
+    exact key (h4.2 j (List.mem_range.mpr hjl) hin)
+
 /-- a task that has entered some command has entered its first command -/
 theorem cmd_zero_of_cmd {g : Graph} {tr : List Ev} (h : TraceOk g tr) {t i : Nat}
     (hc : Ev.cmd t i ∈ tr) : Ev.cmd t 0 ∈ tr := by
